@@ -14,7 +14,8 @@
    are being deleted; the model deletes one eligible node at a time (first in list order) until
    none is left.  dd_survivors (proofs) shows the surviving set does not depend on that order. *)
 From Coq Require Import List NArith Bool.
-From SV Require Import lib.Bytes gen.GenClean.
+From SV Require Import lib.Bytes.
+From SV Require Import gen.GenClean.
 Import ListNotations.
 Open Scope N_scope.
 
